@@ -48,17 +48,19 @@ func init() {
 		assume:  []string{"the call hook reports every call port", "the context argument of error/2 is implementation defined and not compared"},
 		trusted: []string{"TLC", "Engine.tla as the reference semantics", "harness renderer/canonicaliser (jt)"},
 		run: func(c *checkCtx) {
-			r := c.mcHolds("GenCatch", "GenCatch_"+c.tier+".cfg", tlcOpts{})
-			if r.ncases == 0 {
-				infra("GenCatch produced no cases")
-			}
-			cases, results := c.replay("engine", r.cases, replayOpts{})
-			c.judge("engine", cases, results, func(cs, res map[string]J) string {
-				if in, _ := res["input"].(string); strings.Contains(in, "throw(") || strings.Contains(in, "foo") || strings.Contains(in, "undef") {
-					return in
+			for _, cfg := range []string{"GenCatch_" + c.tier + ".cfg", "GenCatch_" + c.tier + "2.cfg"} {
+				r := c.mcHolds("GenCatch", cfg, tlcOpts{})
+				if r.ncases == 0 {
+					infra("GenCatch produced no cases")
 				}
-				return ""
-			})
+				cases, results := c.replay("engine", r.cases, replayOpts{})
+				c.judge("engine", cases, results, func(cs, res map[string]J) string {
+					if in, _ := res["input"].(string); strings.Contains(in, "throw(") || strings.Contains(in, "foo") || strings.Contains(in, "undef") {
+						return in
+					}
+					return ""
+				})
+			}
 			c.engineTV(tvN(c), "catch,cut")
 			c.exhaustive = true
 		},
@@ -71,19 +73,21 @@ func init() {
 		assume:  []string{"retractall/1 on an undefined procedure is left open (ISO creates the procedure, the property is silent): such histories are not judged"},
 		trusted: []string{"TLC", "Engine.tla as the reference semantics", "harness renderer/canonicaliser (jt)"},
 		run: func(c *checkCtx) {
-			r := c.mcHolds("GenDb", "GenDb_"+c.tier+".cfg", tlcOpts{})
-			if r.ncases == 0 {
-				infra("GenDb produced no cases")
-			}
-			cases, results := c.replay("engine", r.cases, replayOpts{})
-			c.judge("engine", cases, results, func(cs, res map[string]J) string {
-				in, _ := res["input"].(string)
-				q := in[strings.Index(in, "?-"):]
-				if strings.Contains(q, "(p(V1) , ") || strings.Contains(q, "(retract(p(V1)) , ") || strings.Contains(q, "(clause(p(V1),true) , ") {
-					return q
+			for _, cfg := range []string{"GenDb_" + c.tier + ".cfg", "GenDb_" + c.tier + "2.cfg"} {
+				r := c.mcHolds("GenDb", cfg, tlcOpts{})
+				if r.ncases == 0 {
+					infra("GenDb produced no cases")
 				}
-				return ""
-			})
+				cases, results := c.replay("engine", r.cases, replayOpts{})
+				c.judge("engine", cases, results, func(cs, res map[string]J) string {
+					in, _ := res["input"].(string)
+					q := in[strings.Index(in, "?-"):]
+					if strings.Contains(q, "w(V1)") {
+						return q
+					}
+					return ""
+				})
+			}
 			c.engineTV(tvN(c), "db")
 			c.exhaustive = true
 		},
